@@ -85,6 +85,23 @@ def behaviour(a):
         out.append(("str", str(a)))
     except Exception as e:  # noqa: BLE001
         out.append(("str", type(e).__name__))
+    # deterministic cut-off (no timers): values that are astronomically large are not evaluated - a factorial
+    # of anything but a leaf, or a factorial anywhere inside an exponent (3 ** 720! never finishes)
+    def heavy(n, in_exp=False):
+        if n is None:
+            return False
+        k = kind(n)
+        if k == "FactorialExpression":
+            c = n.get_child()
+            if in_exp or (c is not None and kind(c) not in ("ConstantExpression", "VariableExpression")):
+                return True
+        if k == "PowerExpression":
+            return heavy(n.left, in_exp) or heavy(n.right, True)
+        return heavy(n.left, in_exp) or heavy(n.right, in_exp)
+
+    if heavy(a):
+        out.append(("val", "not evaluated (astronomically large)"))
+        return out
     try:
         v = a.evaluate({"x": 3})
         out.append(("val", repr(v)))
@@ -93,67 +110,84 @@ def behaviour(a):
     return out
 
 
-def main():
-    maxn = int(sys.argv[1])
-    fails = []
-    cases = 0
+def work_chunk(args):
+    """Share k of K of the enumeration: every worker enumerates the descriptions itself (nothing is pickled)."""
     import itertools
 
-    work = itertools.chain(
+    k, K, maxn = args
+    fails = []
+    cases = 0
+    everything = itertools.chain(
         (t for n in range(1, maxn + 1) for t in gen(n)),
         (t for n in range(1, min(maxn, 3) + 1) for t in gen(n, NP_LEAVES)),
     )
-    for _ in (0,):
-        for t in work:
-            root = realise(t)
-            orig_nodes = nodes(root)
-            ids = {id(x) for x in orig_nodes}
+    for idx, t in enumerate(everything):
+        if idx % K != k:
+            continue
+        root = realise(t)
+        orig_nodes = nodes(root)
+        ids = {id(x) for x in orig_nodes}
+        try:
+            c = root.clone()
+        except Exception as e:  # noqa: BLE001
+            fails.append({"clause": "clone/identical-independent", "detail": f"clone() raised {type(e).__name__}: {str(e)[:80]} on {t}"})
+            continue
+        cases += 1
+        probs = []
+        iso(root, c, ids, probs)
+        if c.parent is not None:
+            probs.append("clone has a parent")
+        if not probs and behaviour(root) != behaviour(c):
+            probs.append(f"behaviour differs {behaviour(root)} vs {behaviour(c)}")
+        for pr in probs[:2]:
+            fails.append({"clause": "clone/identical-independent", "detail": f"{pr} on {t}"})
+        # clone_from_root via every node
+        for x in orig_nodes:
+            p = path_of(x)
             try:
-                c = root.clone()
+                y = x.clone_from_root()
             except Exception as e:  # noqa: BLE001
-                fails.append({"clause": "clone/identical-independent", "detail": f"clone() raised {type(e).__name__}: {str(e)[:80]} on {t}"})
+                fails.append({"clause": "clone_from_root/locates-node", "detail": f"clone_from_root() raised {type(e).__name__}: {str(e)[:80]} on {t} via {p}"})
                 continue
             cases += 1
-            probs = []
-            iso(root, c, ids, probs)
-            if c.parent is not None:
-                probs.append("clone has a parent")
-            if not probs and behaviour(root) != behaviour(c):
-                probs.append(f"behaviour differs {behaviour(root)} vs {behaviour(c)}")
-            for pr in probs[:2]:
-                fails.append({"clause": "clone/identical-independent", "detail": f"{pr} on {t}"})
-            # clone_from_root via every node
-            for x in orig_nodes:
-                p = path_of(x)
-                try:
-                    y = x.clone_from_root()
-                except Exception as e:  # noqa: BLE001
-                    fails.append({"clause": "clone_from_root/locates-node", "detail": f"clone_from_root() raised {type(e).__name__}: {str(e)[:80]} on {t} via {p}"})
-                    continue
-                cases += 1
-                r2 = y
-                guard = 0
-                while r2.parent is not None and guard < 50:
-                    r2 = r2.parent
-                    guard += 1
-                pr2 = []
-                iso(root, r2, ids, pr2)
-                try:
-                    located = at_path(r2, p)
-                except AttributeError:
-                    located = None
-                if located is not y:
-                    pr2.append(f"returned node is not at path '{p}' of the copy")
-                if x.cloned_node is not None or x.cloned_target is not None:
-                    pr2.append("bookkeeping not reset")
-                for pr in pr2[:2]:
-                    fails.append({"clause": "clone_from_root/locates-node", "detail": f"{pr} on {t} via {p}"})
-            # independence: edit the copy
-            for y in nodes(c):
-                if kind(y) == "ConstantExpression":
-                    y.value = 99
-            if any(kind(x) == "ConstantExpression" and x.value == 99 for x in orig_nodes):
-                fails.append({"clause": "clone/identical-independent", "detail": f"editing the copy changed the original on {t}"})
+            r2 = y
+            guard = 0
+            while r2.parent is not None and guard < 50:
+                r2 = r2.parent
+                guard += 1
+            pr2 = []
+            iso(root, r2, ids, pr2)
+            try:
+                located = at_path(r2, p)
+            except AttributeError:
+                located = None
+            if located is not y:
+                pr2.append(f"returned node is not at path '{p}' of the copy")
+            if x.cloned_node is not None or x.cloned_target is not None:
+                pr2.append("bookkeeping not reset")
+            for pr in pr2[:2]:
+                fails.append({"clause": "clone_from_root/locates-node", "detail": f"{pr} on {t} via {p}"})
+        # independence: edit the copy
+        for y in nodes(c):
+            if kind(y) == "ConstantExpression":
+                y.value = 99
+        if any(kind(x) == "ConstantExpression" and x.value == 99 for x in orig_nodes):
+            fails.append({"clause": "clone/identical-independent", "detail": f"editing the copy changed the original on {t}"})
+
+    return cases, fails
+
+
+def main():
+    maxn = int(sys.argv[1])
+    import multiprocessing as mp
+
+    K = 64
+    fails = []
+    cases = 0
+    with mp.get_context("fork").Pool(16) as pool:
+        for c, f in pool.imap_unordered(work_chunk, [(k, K, maxn) for k in range(K)]):
+            cases += c
+            fails += f
     # de-duplicate by clause + first words
     seen = {}
     for f in fails:
